@@ -36,6 +36,24 @@ structure Approx (tn : TickNum) (ε : Rat) : Prop where
   /-- `Decimal(10 ** e)` is positive -/
   fac_pos : ∀ e : Int, 0 < tn.fac e
 
+/-- exact arithmetic: what `NumCtx.exact` would be with an exact square root on perfect squares -/
+structure Exact (tn : TickNum) : Prop where
+  rnd : ∀ x : Rat, tn.cx.rnd x = x
+  sq : ∀ x : Rat, tn.sq x = x * x
+  sqrt : ∀ y : Rat, 0 ≤ y → tn.cx.dsqrt (y * y) = y
+  fac_pos : ∀ e : Int, 0 < tn.fac e
+
+/-- 1.0001 -/
+def rho : Rat := 10001 / 10000
+
+theorem rho_pos : 0 < rho := by unfold rho; norm_num
+theorem one_lt_rho : 1 < rho := by unfold rho; norm_num
+
+/-- what is assumed of `math.floor(math.log(y, SQRT_1p0001))`: it is the floor of the logarithm to base `√1.0001` of
+    `y` perturbed by a relative error of at most `δ` — on squares: `1.0001^e ≤ (y(1+δ))²` and `(y(1−δ))² < 1.0001^(e+1)`. -/
+def LgSound (tn : TickNum) (δ : Rat) : Prop :=
+  ∀ y : Rat, 0 < y → rho ^ (tn.lg y) ≤ (y * (1 + δ)) ^ 2 ∧ (y * (1 - δ)) ^ 2 < rho ^ (tn.lg y + 1)
+
 def RelLU (ε : Rat) (i j : Nat) (a b : Rat) : Prop := a * (1 - ε) ^ i ≤ b ∧ b ≤ a * (1 + ε) ^ j
 
 section rel
